@@ -203,6 +203,10 @@ partial def ceval (env : List (String × Val)) : Sexp → M Val
         | [x] => pure (.vec (List.replicate n x))
         | xs => if xs.length = n then pure (.vec xs) else throw (.stuck "vector constructor arity")
       | none => pure (.comp vs)
+    | "aidx", _ => do
+      -- `array<T, N>(e0, …)[j]`: the j-th element
+      let j ← opt opn.toNat? "array index"
+      opt vs[j]? "constant array index out of range"
     | _, _ => throw (.stuck ("expression kind " ++ k))
   | e => throw (.stuck s!"expression {e}")
 
